@@ -23,7 +23,7 @@
 (* The module is used in three ways (IOEnv.MODE):                           *)
 (*   "model"  TLC checks the action property Invariance on a small abstract *)
 (*            analyzer: it holds for the ideal analyzer with the table,     *)
-(*            fails without the table and fails for three defective         *)
+(*            fails without the table and fails for four defective          *)
 (*            analyzers (the property is neither too strong nor vacuous).   *)
 (*   "gen"    TLC enumerates the rewrite histories (length <= MaxLen over   *)
 (*            the alphabet, no step that leaves the rendering unchanged).   *)
@@ -157,7 +157,11 @@ vars == <<prog, rendering, observed, pending, steps>>
 AbsProg == [items |-> 1..3, deps |-> {<<3, 1>>},
             findings |-> {[id |-> "zerodiv", at |-> 1, about |-> "u"], [id |-> "uninitvar", at |-> 2, about |-> "v"],
                           [id |-> "nullPointer", at |-> 3, about |-> "u"], [id |-> "suspiciousSemicolon", at |-> 2, about |-> ""],
-                          [id |-> "shadowVariable", at |-> 3, about |-> "v"]}]
+                          [id |-> "shadowVariable", at |-> 3, about |-> "v"],
+                          \* C06: item 1 also defines an alias of an unsigned type, a template and a macro; item 3 uses them.
+                          \* A finding inside the definition, a value-flow fact of the using code, a style remark on macro text
+                          [id |-> "unusedStructMember", at |-> 1, about |-> "def"], [id |-> "valueflow", at |-> 3, about |-> "44"],
+                          [id |-> "duplicateExpression", at |-> 3, about |-> "macrotext"]}]
 
 OrderOf(r) == CASE r.order = 0 -> <<1, 2, 3>> [] r.order = 1 -> <<2, 1, 3>> [] r.order = 2 -> <<1, 3, 2>>
 RespectsDeps(ord, deps) == \A d \in deps : (CHOOSE q \in DOMAIN ord : ord[q] = d[1]) > (CHOOSE q \in DOMAIN ord : ord[q] = d[2])
@@ -179,13 +183,20 @@ Unspell(r, c) == IF \E nm \in {"u", "v"} : Spell(r, nm) = c THEN CHOOSE nm \in {
 \* findings whose MEANING depends on the rendering (that is why they are in the table)
 Fires(f, r) == CASE f.id = "suspiciousSemicolon" -> r.ws # 2 /\ FillBefore(r, 3) = 0
                  [] f.id = "shadowVariable" -> r.names.l = r.names.p /\ Pos(r, 2) < Pos(r, 3)
+                 [] f.id = "duplicateExpression" -> r.x.macro = 1      \* not said about text that comes out of a macro
                  [] OTHER -> TRUE
 
-\* concrete findings [id, line, name] of the analyzer on the rendering
+\* concrete findings [id, line, name, indef, ingroup, sev] of the analyzer on the rendering
 Analyze(P, r) ==
   {[id |-> f.id,
     line |-> IF Variant = "line8" THEN LineOf(r, f.at) % 256 ELSE LineOf(r, f.at),           \* 8 bit line bookkeeping
-    name |-> Spell(r, f.about)]
+    \* the finding inside the template definition names the instantiation / the hand-written entity
+    name |-> IF f.about = "def" THEN (IF r.x.template = 1 THEN "byhand" ELSE "instance")
+             \* an alias that loses `unsigned' changes the known value of the using code
+             ELSE IF f.id = "valueflow" THEN (IF Variant = "aliasLosesSign" /\ r.x.typedef = 0 THEN "-212" ELSE f.about)
+             ELSE IF f.about = "macrotext" THEN f.about
+             ELSE Spell(r, f.about),
+    indef |-> f.about = "def", ingroup |-> f.about = "macrotext", sev |-> IF f.id = "duplicateExpression" THEN "style" ELSE "error"]
    : f \in {f \in P.findings :
               /\ Fires(f, r)
               /\ ~(Variant = "nameKeyed" /\ f.id = "zerodiv" /\ Spell(r, f.about) \in {"zza", "zzb"})   \* heuristic keyed on a spelling
@@ -194,7 +205,7 @@ Analyze(P, r) ==
 \* projection back through the rendering's maps
 Project(r, c) == LET at == IF \E it \in 1..3 : LineOf(r, it) = c.line THEN CHOOSE it \in 1..3 : LineOf(r, it) = c.line ELSE 0
                      nm == Unspell(r, c.name)
-                 IN [id |-> c.id, key |-> <<c.id, at, nm>>, mk |-> <<c.id, nm>>, indef |-> FALSE]
+                 IN [id |-> c.id, key |-> <<c.id, at, nm>>, mk |-> <<c.id, nm>>, indef |-> c.indef, ingroup |-> c.ingroup, sev |-> c.sev]
 ObservedOf(P, r) == {Project(r, c) : c \in Analyze(P, r)}
 
 Init == /\ prog = AbsProg /\ rendering = InitRendering /\ observed = ObservedOf(AbsProg, InitRendering)
@@ -212,7 +223,7 @@ Observe == /\ pending # {}
            /\ pending' = {}
            /\ UNCHANGED <<prog, rendering, steps>>
 
-Next == (\E a \in LettersC05 : Rewrite(a)) \/ Observe
+Next == (\E a \in LettersC05 \cup LettersC06 : Rewrite(a)) \/ Observe
 Spec == Init /\ [][Next]_vars
 
 \* what is compared after several rewrites: what every one of them compares
